@@ -139,6 +139,12 @@ fn parse_ip_netmask(addr: &str) -> Result<(Ipv4Addr, Ipv4Addr), String> {
     Ok((ip, netmask))
 }
 
+/// Verification hook (guarded): access to the private netmask parser.
+#[cfg(feature = "dswd_vpncloud_verif")]
+pub fn verif_parse_ip_netmask(addr: &str) -> Result<(Ipv4Addr, Ipv4Addr), String> {
+    parse_ip_netmask(addr)
+}
+
 fn setup_device(config: &Config) -> TunTapDevice {
     let device = try_fail!(
         TunTapDevice::new(&config.device_name, config.device_type, config.device_path.as_ref().map(|s| s as &str)),
